@@ -82,7 +82,12 @@ def check(run, replay=None):
     legal = S.legal_scenarios(rng, thorough, "L")
     oor = oor_scenarios(rng, thorough)
     flt = fault_scenarios(rng, thorough) + failed_init_scenarios(tie, rng, thorough)
-    allscn = legal + oor + flt
+    # silent / stuck peers cut out of the recorded streams of the legal scripts (see S.directed_cuts)
+    pre = tie.run_impl([s for s in legal if s.tag == "script"])
+    from C13 import unrle, rle
+    cuts = S.directed_cuts([(s.crc, s.retries, s.calls, pre[s.id].miso) for s in legal if s.tag == "script" and s.id in pre],
+                           unrle, rle, prefix="DK", limit=120 if thorough else 16)
+    allscn = legal + oor + flt + cuts
     ires = tie.run_impl(allscn)
     mres = tie.run_model(allscn, ires)
     diffs = tie.compare(allscn, ires, mres)
